@@ -187,6 +187,9 @@ def encode_ods(sheets, feat):
                 x += n
             parts.append("</table:table-row>"); y += reps
         parts.append("</table:table>")
+    if "dde_link" in feat:
+        # the cached table of a DDE link is a table:table below office:spreadsheet that is *not* a sheet (ODF 1.2, 9.8 table:dde-links)
+        parts.append('<table:dde-links><table:dde-link><table:table><table:table-row><table:table-cell office:value-type="string"><text:p>cached</text:p></table:table-cell></table:table-row></table:table></table:dde-link></table:dde-links>')
     parts.append("</office:spreadsheet></office:body></office:document-content>")
     return "".join(parts)
 
@@ -198,7 +201,7 @@ def write_ods(path, content_xml, with_content=True):
         if with_content: z.writestr("content.xml", content_xml)
 
 
-PLAIN_FEATURES = ["col_runs"]
+PLAIN_FEATURES = ["col_runs", "dde_link"]
 RICH_FEATURES = ["row_runs", "text_s", "text_tab", "line_break", "spans", "paragraphs"]
 
 
@@ -234,7 +237,7 @@ def unit_ods_audit():
                 return None if got == sheets[k - 1] else {"expected": sheets[k - 1], "observed": got}
             desc = lambda c: {"sheets": c[0], "encoding_features": sorted(c[1]), "requested_sheet": c[2]}
             res.append(sweep("C15/audit/plain cells, column runs, 1-3 sheets", cases(PLAIN_FEATURES, True), check, "audit",
-                             "tables of 0-6 rows x 0-8 cells over a text alphabet with XML-special and non-ASCII characters, adjacent equal cells, written by an independent ODF encoder with column runs on/off, 1-3 sheets, every sheet requested",
+                             "tables of 0-6 rows x 0-8 cells over a text alphabet with XML-special and non-ASCII characters, adjacent equal cells, written by an independent ODF encoder with column runs on/off, with / without the cached table of a DDE link (a table:table that is no sheet), 1-3 sheets, every sheet requested",
                              describe=desc, function="rowio.ods_rows", unit="C15.audit", props=["C15"]))
             # rich encodings (recorded finding K-4): counted, reported once
             bad = []
@@ -260,6 +263,7 @@ def unit_ods_audit():
                 for bad_rep in ("0", "-1", "x", "", "1.5"):
                     yield ("repeat count %r" % bad_rep, None, content.replace("<table:table-cell ", '<table:table-cell table:number-columns-repeated="%s" ' % bad_rep, 1))
                 yield ("missing sheet", None, ("SHEET", content))
+                yield ("missing sheet in a document that also holds the cached table of a DDE link", None, ("SHEET", encode_ods([[["a", "b"], ["c", "d"]]], {"dde_link"})))
             def fault_check(c):
                 label, blob, xml = c
                 n[0] += 1; path = os.path.join(tmp, "f%d.ods" % n[0]); sheet = 1
@@ -274,7 +278,7 @@ def unit_ods_audit():
                 if label.startswith("content.xml cut") or label.startswith("truncated"): return {"expected": "DataFormatError for %s" % label, "observed": "rows returned"}
                 return {"expected": "DataFormatError for %s" % label, "observed": "rows returned"}
             res.append(sweep("C15/audit/fault injection", fault_cases(), fault_check, "audit",
-                             "archive truncated at every 64th byte, a non-zip file, an archive without content.xml, content.xml cut at every third tag boundary, repeat counts 0 / -1 / x / '' / 1.5, a missing sheet",
+                             "archive truncated at every 64th byte, a non-zip file, an archive without content.xml, content.xml cut at every third tag boundary, repeat counts 0 / -1 / x / '' / 1.5, a missing sheet (also with a DDE link's cached table present)",
                              describe=lambda c: {"fault": c[0]}, function="rowio.ods_rows", unit="C15.audit", props=["C15", "C06", "C10"]))
             return res
         finally:
